@@ -82,6 +82,50 @@ def r_scan(repo, rep, R='R6.3'):
     rep.floor('scan paths', len(paths), 5)
 
 
+def r_scan_deep(repo, rep, R='R6.3'):
+    """leaf features of a sub-category bound to a variable are numbered consecutively, left to right"""
+    mod = repo.module(UNI)
+    sd = mod.get('Unification.__call__.scan_deep')
+    ps = [a.arg for a in sd.args.args]
+    if len(ps) != 4:
+        raise AnalysisError('%s: scan_deep has parameters %s' % (UNI, ps))
+    s, v, idx, res = ps
+    w = '%s:%s Unification.__call__.scan_deep' % (UNI, sd.lineno)
+
+    def on_call(st, t, node):
+        if t[1][0] == 'func' and t[1][1] == sd.name and len(t[2]) == 4:
+            k = len(st.data.setdefault('rec', []))
+            st.data['rec'].append(t[2])
+            return ('sym', 'next-free-index', k)
+        return None
+    leaf_ok = fun_ok = False
+    detail = []
+    for st, o in SymExec(sd, on_call=on_call, init_env={sd.name: ('func', sd.name, id(sd))}).run():
+        conds = [(c, pol) for c, pol, _ in st.conds]
+        recs = st.data.get('rec', [])
+        is_fun = (A(N(s), 'is_functor'), True) in conds or (A(N(s), 'is_atomic'), False) in conds
+        if is_fun:
+            ok = len(recs) == 2 and recs[0][0] == A(N(s), 'left') and recs[0][2] == N(idx) and recs[1][0] == A(N(s), 'right') and \
+                recs[1][2] == ('sym', 'next-free-index', 0) and st.ret == ('sym', 'next-free-index', 1) and \
+                all(r[1] == N(v) and r[3] == N(res) for r in recs)
+            fun_ok = ok
+            detail.append('functor: %s -> %s' % ([show(r[2]) for r in recs], show(st.ret) if st.ret else None))
+        else:
+            sets = [(e[2], e[3]) for e in st.events if e[0] == 'setitem' and e[1] == N(res)]
+            ok = len(sets) == 1 and sets[0][0] == ('fstr', (N(v), N(idx))) and sets[0][1] == A(N(s), 'feature') and \
+                st.ret in (('binop', '+', N(idx), C(1)), ('binop', '+', C(1), N(idx))) and not recs
+            leaf_ok = ok
+            detail.append('leaf: %s -> %s' % ([(show(a), show(b)) for a, b in sets], show(st.ret) if st.ret else None))
+    rep.check(leaf_ok and fun_ok, R, w, 'scan_deep:leaf-numbering',
+              'every leaf gets the next free index and the right side continues where the left side stopped (%s)' % '; '.join(detail),
+              'the leaves under a variable are not numbered consecutively left to right, so features at corresponding positions are not the ones compared: %s' % '; '.join(detail))
+    scan = mod.get('Unification.__call__.scan')
+    starts = [n for n in ast.walk(scan) if isinstance(n, ast.Call) and src(n.func) == sd.name]
+    ok = len(starts) == 1 and len(starts[0].args) == 4 and src(starts[0].args[2]) == '0'
+    rep.check(ok, R, '%s:%s Unification.__call__.scan' % (UNI, scan.lineno), 'scan_deep:start', 'numbering starts at 0 for each variable occurrence',
+              'scan_deep is started with %s' % [src(a) for a in starts[0].args] if starts else 'no call')
+
+
 def flatten_all(conds):
     return ru.flatten_guards(conds)
 
@@ -182,5 +226,6 @@ def check(repo, rep, tier):
     n = ru.r_client_typestate(repo, rep, files)
     rep.floor('Unification(...) client sites', n, 16)
     r_scan(repo, rep)
+    r_scan_deep(repo, rep)
     r_feature_loop(repo, rep)
     r_feature_relations(repo, rep)
